@@ -199,8 +199,8 @@ Proof. exact (dasgupta_score_unit degree n G D). Qed.
 Print Assumptions dasgupta_score_in_unit_interval.
 
 (** tree_sampling_divergence is modelled ([tsd_terms], [mi_terms], [tree_sampling_divergence] over a [ln]
-    oracle) and compared with the implementation at run time; its bounds (Gibbs' inequality) are NOT proved
-    here: they are checked on every run by the harness (partial, see the evidence). *)
+    oracle) and compared with the implementation at run time; its bounds (Gibbs' inequality, coarse-graining)
+    are proved over the reals in the last section of this file (tsd_nonneg, tsd_normalized_le_one). *)
 
 (** The stable argsort meets the oracle contract (the hypotheses above are satisfiable). *)
 Theorem argsort_contract_satisfiable : argsort_ok stable_argsort.
